@@ -49,6 +49,9 @@ func calendarEndGuarded(f *ssa.Function, call ssa.CallInstruction, recv ssa.Valu
 			have[n] = true
 		}
 	}
+	if calendarEndPruned(call, recv, want) {
+		return true
+	}
 	for _, b := range f.Blocks {
 		iff, ok := b.Instrs[len(b.Instrs)-1].(*ssa.If)
 		if !ok {
@@ -74,6 +77,118 @@ func calendarEndGuarded(f *ssa.Function, call ssa.CallInstruction, recv ssa.Valu
 		}
 	}
 	return false
+}
+
+// calendarEndPruned: assume the receiver IS the given date; every comparison of one of its
+// accessors with a constant then has a known outcome. The step is excluded when no path from the
+// receiver's definition to the call survives once the edges contradicting those outcomes are
+// removed (a path that passes the definition again carries a new value and does not count).
+func calendarEndPruned(call ssa.CallInstruction, recv ssa.Value, want map[string]int64) bool {
+	rv := strip(recv)
+	in, isIn := rv.(ssa.Instruction)
+	if !isIn || in.Parent() != call.Parent() {
+		return false
+	}
+	def := in.Block()
+	if def == call.Block() {
+		return false
+	}
+	var decideRef func(cond ssa.Value) (val, known bool)
+	decide := func(cond ssa.Value) (val, known bool) {
+		neg := false
+		for {
+			u, isU := cond.(*ssa.UnOp)
+			if !isU || u.Op != token.NOT {
+				break
+			}
+			cond, neg = u.X, !neg
+		}
+		if hc, isCall := cond.(*ssa.Call); isCall {
+			// a predicate helper: when it has one way of saying yes (a conjunction), it says
+			// yes iff every conjunct holds
+			ex := expandBoolGuards([]Guard{{Cond: hc, Pol: true}}, 0)
+			if len(ex) > 1 {
+				all, anyFalse := true, false
+				for _, g := range ex[1:] {
+					v, known := decideRef(g.Cond)
+					if !known {
+						all = false
+						continue
+					}
+					if v != g.Pol {
+						anyFalse = true
+					}
+				}
+				if anyFalse {
+					return false != neg, true
+				}
+				if all {
+					return true != neg, true
+				}
+			}
+			return false, false
+		}
+		bo, ok := cond.(*ssa.BinOp)
+		if !ok {
+			return false, false
+		}
+		x, y, op := bo.X, bo.Y, bo.Op
+		if _, isK := constInt(x); isK {
+			x, y = y, x
+			op = map[token.Token]token.Token{token.LSS: token.GTR, token.GTR: token.LSS, token.LEQ: token.GEQ, token.GEQ: token.LEQ, token.EQL: token.EQL, token.NEQ: token.NEQ}[op]
+		}
+		n, r2, args, _ := methodCall(x)
+		c, isK := constInt(y)
+		w, isAcc := want[n]
+		if !isK || !isAcc || r2 == nil || len(args) != 0 || !sameValue(r2, recv) {
+			return false, false
+		}
+		var v bool
+		switch op {
+		case token.EQL:
+			v = w == c
+		case token.NEQ:
+			v = w != c
+		case token.LSS:
+			v = w < c
+		case token.LEQ:
+			v = w <= c
+		case token.GTR:
+			v = w > c
+		case token.GEQ:
+			v = w >= c
+		default:
+			return false, false
+		}
+		return v != neg, true
+	}
+	decideRef = decide
+	seen := map[*ssa.BasicBlock]bool{def: true}
+	work := []*ssa.BasicBlock{def}
+	for len(work) > 0 {
+		b := work[len(work)-1]
+		work = work[:len(work)-1]
+		succs := b.Succs
+		if iff, ok := b.Instrs[len(b.Instrs)-1].(*ssa.If); ok && len(b.Succs) == 2 {
+			if v, known := decide(iff.Cond); known {
+				if v {
+					succs = b.Succs[:1]
+				} else {
+					succs = b.Succs[1:]
+				}
+			}
+		}
+		for _, s := range succs {
+			if s == call.Block() {
+				return false
+			}
+			if !seen[s] {
+				seen[s] = true
+				work = append(work, s)
+			}
+		}
+	}
+	return true
 }
 
 func ruleP15Total(p *Prog, r *Report) {
